@@ -1,15 +1,3 @@
 import GopModel.Driver.All
 open GopModel.Driver
-
-partial def loop (hin hout : IO.FS.Stream) : IO Unit := do
-  let line ← hin.getLine
-  if line.isEmpty then return ()
-  let l := if line.endsWith "\n" then (line.dropEnd 1).toString else line
-  hout.putStrLn (dispatch l)
-  loop hin hout
-
-def main : IO Unit := do
-  let hin ← IO.getStdin
-  let hout ← IO.getStdout
-  loop hin hout
-  hout.flush
+def main : IO Unit := runDriver (dispatchWith handlers)
